@@ -55,10 +55,9 @@ class IntegratorTemplate(abc.ABC):
             rtol = self.solver_dict['rtol']
             dState = self.solver_dict['dState']
             order = self.solver_dict['order']
-            if "system_scaling" in self.solver_dict:
-                self.solver_dict["system_scaling"] = 0.8 * self.solver_dict["system_scaling"] +  0.2 * D.ar_numpy.maximum(D.ar_numpy.abs(initial_state), D.ar_numpy.abs(dState / timestep))
-            else:
-                self.solver_dict["system_scaling"] = D.ar_numpy.maximum(D.ar_numpy.abs(initial_state), D.ar_numpy.abs(dState / timestep))
+            # the scale belongs to the attempt being judged: the entry does not outlive the call, so an average could only mix in the
+            # rejected attempts of this same step - and one grossly wrong attempt (|dState / timestep| ~ 1e12) loosened every retry after it
+            self.solver_dict["system_scaling"] = D.ar_numpy.maximum(D.ar_numpy.abs(initial_state), D.ar_numpy.abs(dState / timestep))
             total_error_tolerance = (atol + rtol * self.solver_dict["system_scaling"])
             with D.numpy.errstate(divide='ignore'):
                 epsilon_current = D.ar_numpy.reciprocal(D.ar_numpy.linalg.norm(diff / total_error_tolerance))
@@ -89,6 +88,12 @@ class IntegratorTemplate(abc.ABC):
                 corr = corr*D.ar_numpy.where(k3 > 0.0, k3, 1.0)
                 self.solver_dict["epsilon_last_last"], self.solver_dict["epsilon_last"] = epsilon_last, epsilon_current
             corr = (1 + D.ar_numpy.arctan((safety_factor * corr - 1)))
+            # the history of earlier attempts only smooths the step size: an attempt whose OWN error estimate is over the tolerance is rejected
+            # whatever the history says (after a grossly wrong attempt its term exceeds one and, for high orders, outweighs the current estimate)
+            corr_current = D.ar_numpy.where(epsilon_current > 0.0, epsilon_current ** (1.0 / order), 1.0)
+            corr_current = (1 + D.ar_numpy.arctan((safety_factor * corr_current - 1)))
+            if bool(corr_current < 0.9**2):
+                corr = D.ar_numpy.minimum(corr, corr_current)
             timestep = corr * timestep
             return timestep, bool(corr < 0.9**2)
 
